@@ -504,6 +504,10 @@ func runCheck(id, tier, replay string) int {
 				if strings.Contains(r.log, "fatal error:") || strings.Contains(r.log, "goroutine stack exceeds") || strings.Contains(r.log, "unexpected signal") {
 					crashed = true
 				}
+				// a plain (non-rapid) test killed by a panic raised inside the library
+				if strings.Contains(r.log, "panic:") && panicInLibrary(r.log) {
+					crashed = true
+				}
 				incomplete = append(incomplete, fmt.Sprintf("shard %d exited %d without a recorded violation", r.idx, r.exit))
 				// drop rapid's draw log, keep what explains the failure
 				var keep []string
@@ -569,6 +573,24 @@ func runCheck(id, tier, replay string) int {
 						}
 						violations = append(violations, violation{Test: string(tn), Msg: "process died while evaluating this case: " + tail, Replay: dst})
 					}
+				}
+				if len(violations) == 0 && panicInLibrary(rr.log) {
+					// no traced case: the crash log (test name, seed, stack) is the reproduction
+					dir := filepath.Join(root, "replays", id)
+					os.MkdirAll(dir, 0o755)
+					dst := filepath.Join(dir, fmt.Sprintf("crash-%s-seed%d-s%d.log", tier, seed, r.idx))
+					tail := rr.log
+					if i := strings.Index(tail, "panic:"); i >= 0 {
+						tail = tail[i:]
+					}
+					if len(tail) > 6000 {
+						tail = tail[:6000]
+					}
+					os.WriteFile(dst, []byte(fmt.Sprintf("VERIF_SEED=%d shard %d of %d, tier %s: the test process panicked inside the library\n%s", seed, r.idx, n, tier, tail)), 0o644)
+					if len(tail) > 1500 {
+						tail = tail[:1500]
+					}
+					violations = append(violations, violation{Test: "library-panic", Msg: "the library panicked while a property was evaluated: " + tail, Replay: dst})
 				}
 			}
 			break
@@ -753,4 +775,26 @@ func regressionFiles(id string) []string {
 	}
 	sort.Strings(out)
 	return out
+}
+
+// panicInLibrary reports whether the innermost frame below a panic that is neither runtime nor testing
+// code lies in the library under test (same rule as hx.PanicInLibrary).
+func panicInLibrary(log string) bool {
+	lines := strings.Split(log, "\n")
+	seenPanic := false
+	for i := 0; i+1 < len(lines); i++ {
+		l := lines[i]
+		if strings.HasPrefix(l, "panic(") {
+			seenPanic = true
+			continue
+		}
+		if !seenPanic || strings.HasPrefix(l, "\t") || strings.HasPrefix(l, "goroutine") || l == "" {
+			continue
+		}
+		if strings.HasPrefix(l, "runtime.") || strings.HasPrefix(l, "runtime/") || strings.HasPrefix(l, "testing.") {
+			continue
+		}
+		return strings.HasPrefix(l, "github.com/llir/llvm/")
+	}
+	return false
 }
